@@ -79,7 +79,8 @@ let () = Reg.register "c14.instantiate" (fun inp out ->
 
 (* end to end: templated .tm text; grammar.Parser.Rules; instances identified by their names in Syms *)
 let () = Reg.register "c14.tm" (fun inp out ->
-  let m = get_model inp in
+  (* lookahead flags: made explicit (ordinary parameters with explicit arguments everywhere) before the oracle *)
+  let m = Templates.la_explicit (get_model inp) in
   let verdict = match lst out with
     | [A "err"] -> "ok"
     | [A "ok"; t; syms; rules] ->
